@@ -3466,12 +3466,16 @@ class SFTPClientFile:
         data = b''
 
         if offset is not None:
-            if size is None or size < 0:
+            read_to_end = size is None or size < 0
+
+            if read_to_end:
                 size = (await self._end()) - offset
 
             try:
-                if self.read_len and size > \
-                        min(self.read_len, self._handler.limits.max_read_len):
+                # When reading to the end of the file, always use the
+                # block reader, as it retries reads which come back short
+                if self.read_len and (read_to_end or size > \
+                        min(self.read_len, self._handler.limits.max_read_len)):
                     data = await _SFTPFileReader(
                         self.read_len, self._max_requests, self._handler,
                         self._handle, offset, size).run()
